@@ -133,12 +133,18 @@ func judgeHistory(c HistoryCase) (vs []evid.Violation) {
 		wires = append(wires, wire)
 		kept = append(kept, k)
 	}
-	rx := abilib.NewOwned(make([]byte, max))
+	// Every message arrives in a buffer of its own: that a tree is independent of the input buffer of the same
+	// call is not asserted (a decoder handing out views of its input returns exactly the value, which is what
+	// C03 states; DESIGN.md 7.4), so the buffers stay untouched for as long as the trees are looked at.
+	rxs := make([]*abilib.Owned, len(kept))
+	_ = max
 	at := func(k *keptMsg) string {
 		return fmt.Sprintf("message %d of %d (%s)", k.i, len(kept), clip(c.Msgs[k.i].Params))
 	}
 	for i, k := range kept {
-		in := rx.Refill(wires[i]) // the next message arrives in the same buffer
+		rx := abilib.NewOwned(wires[i])
+		rxs[i] = rx
+		in := rx.Bytes()
 		var err error
 		if pv := evid.Guard("no-panic", func() {
 			if fn := c.Msgs[i].Fn; fn != "" {
@@ -180,12 +186,11 @@ func judgeHistory(c HistoryCase) (vs []evid.Violation) {
 			return append(vs, v...)
 		}
 	}
-	rx.Scribble() // the caller is done with its buffer
 
-	// F1/F2: everything handed out earlier is still what it was, and still right
+	// F1: everything handed out earlier is still what it was, and still right
 	for _, k := range kept {
 		if err := sameTree(k.t, k.v, k.cv, ""); err != nil {
-			vs = append(vs, evid.V("tree-independent-of-input-buffer", "%s: the value tree decoded earlier changed after the receive buffer was re-used: %v", at(k), err))
+			vs = append(vs, evid.V("result-stable", "%s: the value tree decoded earlier changed after later calls: %v", at(k), err))
 			continue
 		}
 		if !bytes.Equal(k.out, k.snap) {
@@ -212,7 +217,7 @@ func judgeHistory(c HistoryCase) (vs []evid.Violation) {
 		if pv := evid.Guard("no-panic", func() { enc, err = k.cv.EncodeABIData() }); pv != nil {
 			vs = append(vs, *pv)
 		} else if err != nil || !bytes.Equal(enc, k.data) {
-			vs = append(vs, evid.V("tree-independent-of-input-buffer", "%s: the tree decoded earlier no longer encodes to its message (%v)", at(k), err))
+			vs = append(vs, evid.V("result-stable", "%s: the tree decoded earlier no longer encodes to its message (%v)", at(k), err))
 		}
 	}
 	if len(vs) > 0 {
@@ -245,11 +250,7 @@ func judgeHistory(c HistoryCase) (vs []evid.Violation) {
 	}
 	// F1/F2: write into the first tree (its []byte and *big.Int values are the caller's now); the receive
 	// buffer and the other trees are unaffected, and decoding the first message again is still right
-	rx.Refill(wires[0])
 	scribbleTree(k0.cv)
-	if !rx.Unchanged() {
-		return append(vs, evid.V("tree-owns-its-memory", "%s: writing into a decoded value wrote through into the caller's receive buffer", at(k0)))
-	}
 	for _, k := range kept[1:] {
 		if err := sameTree(k.t, k.v, k.cv, ""); err != nil {
 			return append(vs, evid.V("result-not-shared", "%s: writing into the tree decoded for message 0 changed this tree: %v", at(k), err))
